@@ -4,6 +4,9 @@ CONSTANTS
   MaxSize = 4
   ForkAt = 2
   Proofs = {"correct", "othersizes", "otherfork", "truncated", "padded", "random", "empty"}
+  Aliases = {"bits", "nl", "nopad", "urlsafe", "space"}
+  CoverAliases = {"bits"}
+  CoverFaultProofs = {"correct"}
   Depth = 12
 INIT Init
 NEXT SimNextF
